@@ -176,10 +176,16 @@ package keeper
 //@        ==> (exists j :: 0 <= j && j < len(memberAddrs) && memberAddrs[j] == bech32addr(signingAttempt.AssignedMembers[i].Address))
 
 // interim data of one attempt: its partial signatures (iterator deletions), their count and the attempt record
+// (verified body: the prefix-iterator loop deletes every record below the attempt's prefix and nothing else)
 //@ func (k Keeper) DeletePartialSignatures
-//@ trusted
 //@ modifies Store_tss
 //@ ensures forall q Bz :: !iskey(types.PartialSignatureStoreKey, q) ==> Store_tss[q] == old(Store_tss)[q]
+//@ ensures forall q Bz :: !hasprefix(q, types.PartialSignaturesStoreKey(signingID, attempt)) ==> Store_tss[q] == old(Store_tss)[q]
+//@ ensures forall q Bz :: hasprefix(q, types.PartialSignaturesStoreKey(signingID, attempt)) ==> !has(Store_tss, q)
+//@ loop 0: invariant 0 <= itpos(iterator) && itpos(iterator) <= itlen(iterator)
+//@ loop 0: invariant forall q Bz :: !hasprefix(q, prefixKey) ==> Store_tss[q] == old(Store_tss)[q]
+//@ loop 0: invariant forall q Bz :: Store_tss[q] == old(Store_tss)[q] || !has(Store_tss, q)
+//@ loop 0: invariant forall j :: 0 <= j && j < itpos(iterator) ==> !has(Store_tss, itkey(iterator, j))
 
 // C10: expiry processing. The queue of expirations is consumed strictly from the front: what remains is exactly the old
 // queue without a processed prefix; processing stops at the first attempt that has not reached its expiry height; the
